@@ -634,8 +634,81 @@ def check_library_update(ctx, key):
     ctx.klass('library-level Update without aliasing')
 
 
+def check_parent_include_through_link(ctx, key):
+    """The library's directory is reached through a DIRECTORY symlink (a
+    'current release' link) and its top file includes '../common/base.yaml'.
+    The operating system resolves 'link/..' to the parent of the link's
+    TARGET; next to the link itself lies a stale file of the same name with
+    other data.  The union is that of the files the OS names."""
+    rng = random.Random('c13link:%s' % key)
+    tref = rng.choice([298.15, 300.0])
+    data, place = gen_group(rng, tref)
+    pieces = split(rng, data, 2, tref)
+    gname = 'C(C)2(H)2'
+    want = EMPTY
+    try:
+        for p_ in pieces:
+            if has_any(p_):
+                want = ref_merge(want, p_)
+    except Conflict:
+        ctx.skip('generator produced a conflict')
+        return
+    if not has_any(pieces[0]) and not has_any(pieces[1]):
+        return
+    stale = {'H': (data['H'] or 0.0) + 3.0, 'S': (data['S'] or 0.0) - 2.0,
+             'Cp': {t: v + 1.0 for t, v in pieces[1]['Cp'].items()},
+             'range': pieces[1]['range']}
+    case = {'link_key': key}
+    with libfiles.TempTree() as tree:
+        def groups_of(p_):
+            return {gname: piece_to_abstract(p_, tref)} if has_any(p_) else {}
+        top = libfiles.render_library(groups_of(pieces[0]),
+                                      include=['../common/base.yaml'])
+        real = libfiles.write_library(tree, 'releases/v2/mylib/library.yaml',
+                                      top)
+        tree.write('releases/v2/common/base.yaml',
+                   libfiles.render_library(groups_of(pieces[1])))
+        for decoy in (True, False):
+            site = os.path.join(tree.path, 'site%d' % decoy)
+            os.makedirs(site)
+            os.symlink(os.path.dirname(real), os.path.join(site, 'mylib'))
+            if decoy:
+                tree.write('site1/common/base.yaml',
+                           libfiles.render_library({gname: piece_to_abstract(
+                               stale, tref)}))
+            o_real = observe(libs.fresh, real)
+            o = observe(libs.fresh, os.path.join(site, 'mylib',
+                                                 'library.yaml'))
+            ctx.evals(2)
+            c = dict(case, stale_sibling=decoy)
+            if 'exc' in o_real:
+                ctx.skip('the tree does not load from its real directory '
+                         '(%s)' % o_real['exc'])
+                return
+            if 'exc' in o:
+                ctx.violation('a library reached through a directory link '
+                              'whose top file includes ../common/... does '
+                              'not load (%s)' % o['exc'], c,
+                              {'msg': o['msg']})
+                return
+            ent = o['ok'][gname]
+            why = same_state(snapshot(ent['thermochem']), want) \
+                if 'thermochem' in ent else 'group missing'
+            if why:
+                ctx.violation('a library reached through a directory link '
+                              'merged another file than the one its include '
+                              'names: %s' % why.split(' (')[0], c,
+                              {'why': why})
+                return
+            ctx.count('parent_includes_resolved_through_a_directory_link')
+    ctx.nontrivial(['link', key])
+
+
 def run_shard(ctx):
     n = 700 if ctx.tier == 'quick' else 5000
+    for i in range(30 if ctx.tier == 'quick' else 300):
+        if ctx.mine(i):
+            check_parent_include_through_link(ctx, 'K%d_%d' % (ctx.seed, i))
     for i in range(n):
         if ctx.mine(i):
             check_split(ctx, {'key': 'S%d_%d' % (ctx.seed, i),
@@ -650,6 +723,8 @@ def run_shard(ctx):
 
 
 def replay(ctx, case):
+    if 'link_key' in case:
+        return check_parent_include_through_link(ctx, case['link_key'])
     if 'dup_key' in case:
         check_duplicate_spelling(ctx, case['dup_key'])
     elif 'libupdate' in case:
